@@ -89,6 +89,10 @@ def maxU (a b : W) : W := if a < b then b else a
 def f32OfBits (w : W) : Float32 := Float32.ofBits w.toNat.toUInt32
 def bitsOfF32 (f : Float32) : W := BitVec.ofNat 32 f.toBits.toNat
 
+/-- WGSL float remainder: `e1 - e2 * trunc(e1 / e2)` -/
+def fremF (x y : Float32) : Float32 :=
+  let q := x / y
+  x - y * (if q < 0 then q.ceil else q.floor)
 def fbin (op : Float32 → Float32 → Float32) (a b : W) : W := bitsOfF32 (op (f32OfBits a) (f32OfBits b))
 def fcmp (op : Float32 → Float32 → Bool) (a b : W) : Bool := op (f32OfBits a) (f32OfBits b)
 
@@ -149,6 +153,7 @@ def binScalar (op : BinOp) : Val → Val → Option Val
     match op with
     | .add => some (.f32 (fbin (· + ·) a b)) | .sub => some (.f32 (fbin (· - ·) a b))
     | .mul => some (.f32 (fbin (· * ·) a b)) | .div => some (.f32 (fbin (· / ·) a b))
+    | .rem => some (.f32 (fbin fremF a b))
     | .eq => some (.bool (fcmp (· == ·) a b)) | .ne => some (.bool (fcmp (· != ·) a b))
     | .lt => some (.bool (fcmp (· < ·) a b)) | .le => some (.bool (fcmp (· ≤ ·) a b))
     | .gt => some (.bool (fcmp (· > ·) a b)) | .ge => some (.bool (fcmp (· ≥ ·) a b))
@@ -295,6 +300,7 @@ def builtin (name : String) (args : List Val) : Option Val :=
   | "all", [a] => allVal a
   | "any", [a] => anyVal a
   | "clamp", [e, lo, hi] => do zipVal (math2 "min") (← zipVal (math2 "max") e lo) hi
+  | "fma", [a, b, c] => do zipVal (binScalar .add) (← zipVal (binScalar .mul) a b) c
   | n, [a] => mapVal (math1 n) a
   | n, [a, b] => zipVal (math2 n) a b
   | _, _ => none
